@@ -53,6 +53,33 @@ def c04(ck):
     m = 20000 if thorough else 3000
     rb = [gen.hx(gen.rand_bytes_malformed(rng, 40)) for _ in range(m)]
     ck.run_family(Family("bytes-random", "dec", rb, decisive=False, shrink=core.shrink_hex_line, nontrivial=lambda c, o: o != "-"))
+    # the decoder as the Cli drives it (one process_byte call per byte, its memory kept between calls): sessions of keys and malformed bytes
+    # against the model, judged on line, cursor and handler calls
+    cs = [gen.rand_session(rng, rng.choice([15, 40]), api=False, malformed=True) for _ in range(3000 if thorough else 1200)]
+    ck.run_family(Family("cli-decoding", "ses", cs, decisive=False, shrink=core.shrink_ops_line(4),
+                         project=lambda o: [(s_["text"], s_["cur"], s_["calls"]) for s_ in (parse_steps(o) or [])] or o,
+                         nontrivial=lambda c, o: "0d" in c or "0a" in c))
+    # ... and across a call that FAILED: decoding depends on the byte sequence only, so the second terminator of a CR LF / LF CR pair is
+    # part of the same Enter also when the sink failed while the first was handled (every sink call of that Enter, once and for good)
+    fc = []
+    for first, second in (("0d", "0a"), ("0a", "0d")):
+        for line in ("6162", "", "6563686f2061", "68656c70"):
+            for j in range(8):
+                for mode in ("once", "perm"):
+                    fc.append("16 32 1 raw %sx:%d:%s;b:%s;x:off;b:%s;b:78;b:0d" % (("b:%s;" % line) if line else "", j, mode, first, second))
+
+    def oracle_pair(case, io):
+        st = parse_steps(io)
+        if st is None:
+            return "malformed session output / crash: " + io[:200]
+        pb, before = st[-3], st[-4]
+        if pb["calls"] != "-" or pb["sink"] != "-" or (pb["text"], pb["cur"]) != (before["text"], before["cur"]):
+            return ("the second byte of a terminator pair was decoded as a key of its own after the call for the first byte %s: it wrote %s, "
+                    "dispatched %s, line %s -> %s" % ("failed" if before["r"] == "err" else "returned", pb["sink"], pb["calls"], before["text"], pb["text"]))
+        return None
+
+    ck.run_family(Family("cli-pair-across-failed-call", "ses", fc, oracle=oracle_pair, impl_only=True, decisive=False, exhaustive=True,
+                         nontrivial=lambda c, o: "err" in o))
     return ck.finish(
         trusted=TB_COMMON,
         rule="units-spec: random lists of key units accepted by the extracted wf_unitb/greedyb, bytes = flat_map bytes_of, implementation "
@@ -695,10 +722,19 @@ def c17(ck):
             continue
         e = gen.hx(gen.enc(c))
         ses.append("16 32 1 raw b:78%s20%s61;b:1b5b44;b:1b5b44;b:1b5b43;b:08;b:%s;b:0d;b:1b5b41;b:0d;b:63202d%s0d" % (e, e, e, e))
+        # moved over at the ENDS of the line: Right at the end and Left at the start do nothing, whatever the encoded length
+        ses.append("16 32 1 raw b:78%s;b:1b5b43;b:1b5b43;b:61;b:1b5b44;b:62;%s;b:79;b:0d" % (e, ";".join(["b:1b5b44"] * 5)))
     def oracle_ses(case, io):
         st = parse_steps(io)
         if not st:
             return "malformed session output"
+        if ";b:1b5b43;b:1b5b43;b:61;" in case:
+            e = case.split("b:78")[1].split(";")[0]
+            calls = [s["calls"] for s in st if s["calls"] != "-"]
+            cp = ord(bytes.fromhex(e).decode("utf-8"))
+            if calls != ["7978%s6261(-)" % e]:
+                return "scalar U+%04X was not moved over correctly at the ends of the line (x c Right Right a Left b Left*5 y Enter): handler saw %s, expected [7978%s6261(-)]" % (cp, calls, e)
+            return None
         e = case.split("b:78")[1].split("20")[0]
         calls = [s["calls"] for s in st if s["calls"] != "-"]
         want0 = "78%s(V:%s61)" % (e, e)
@@ -844,6 +880,18 @@ def c15(ck):
 
     ck.run_family(Family("session-flush", "ses", ses, oracle=oracle, project=unflushed, shrink=core.shrink_ops_line(4),
                          nontrivial=lambda c, o: "0d" in c or "w:" in c))
+    # the same rule AFTER a failed call: a sink call fails once somewhere (any key, Cli::write, set_prompt), then the session goes on with a
+    # working sink - every later call that returns Ok and wrote something must still end with a flush. Fault positions are sink-call
+    # numbers, so this family is judged by the oracle alone.
+    fses = []
+    for _ in range(6000 if thorough else 2500):
+        pre = gen.rand_session_ops(rng, rng.randrange(1, 10))
+        key = rng.choice(["b:0d", "b:0d", "b:61", "b:09", "b:1b5b41", "b:08", "b:1b5b44", "w:s6869", "p:2", "b:" + gen.hx(b"do sab p2 xq\r"), "b:" + gen.hx(b"echo a\r")])
+        post = gen.rand_session_ops(rng, rng.randrange(0, 5)) + rng.sample(["w:s6869,s0a", "p:1", "b:61", "b:0d", "b:1b5b41", "w:"], 4) + ["b:78", "b:0d"]
+        fses.append("%d %d %d raw %s" % (rng.choice([8, 16, 24]), rng.choice([0, 7, 16, 33]), rng.randrange(4),
+                                         ";".join(pre + ["x:%d:once" % rng.randrange(5), key] + post)))
+    ck.run_family(Family("flush-after-fault", "ses", fses, oracle=oracle, shrink=core.shrink_ops_line(4), impl_only=True, decisive=False,
+                         nontrivial=lambda c, o: "err" in o))
     return ck.finish(trusted=TB_COMMON, rule="random sessions incl. handler output, help, Cli::write, set_prompt; after every API call that returned Ok the last sink call must be a flush "
                      "(or there was no sink call); projection = (result, unflushed?, silent?) per call vs model. non-trivial = contains an Enter or an API write")
 
@@ -1297,6 +1345,13 @@ def tab_sweep_sessions(declgen, sets, maxpre=3):
                 # blanks after the word and the cursor moved back into them (and into the word) before Tab
                 for blanks, lefts in ((1, 1), (2, 1), (2, 2), (3, 1), (0, 1)):
                     out.append("%d 16 1 d%d b:%s%s;%sb:09;b:5a;b:0d" % (len(nb) + 8, k, gen.hx(pre), "20" * blanks, "b:1b5b44;" * lefts))
+        # the same with OTHER Unicode white space after the word (no-break, ideographic, em space, NEL): only 0x20 is a blank for the
+        # library, these are ordinary characters of the line - for every name, multi-byte or not
+        for nm in declgen.all_names(s_)[:3]:
+            pre = nm[:max(1, len(nm) - 1)].encode("utf-8")
+            for ws in ("\u3000", "\u00a0", " \u2003", "\u0085 ", "\u3000\u3000"):
+                for lefts in (1, 2):
+                    out.append("%d 16 1 d%d b:%s;b:%s;%sb:09;b:5a;b:0d;b:1b5b41" % (len(nm.encode("utf-8")) + 12, k, gen.hx(pre), gen.hx(ws.encode("utf-8")), "b:1b5b44;" * lefts))
     return out
 
 
